@@ -87,14 +87,17 @@ def r2(ctx):
     q = "_abnf:frame_buffer.recv_frame"
     loc = ctx.index.loc(ctx.index.func(q).node)
 
+    max_faults = 2 if ctx.tier == "thorough" else 1
+
     def mk_interp(raising: bool):
         def rs(I, run, args, kwargs, node):
             n = args[1]
             k = len([e for e in run.effects if e.name == "recv_strict" and e.ret is not None])
             e = run.effect("recv_strict", (n,), node=node)
-            if raising and not run.memo.get("raised") and run.choose(2, I.locof(node), f"read #{k} times out") == 1:
+            if raising and run.memo.get("nraised", 0) < max_faults and run.choose(2, I.locof(node), f"read #{k} times out") == 1:
                 run.memo["raised"] = True
-                run.memo["raised_at"] = k
+                run.memo["nraised"] = run.memo.get("nraised", 0) + 1
+                run.memo.setdefault("raised_at", k)
                 raise RaiseSig(run.alloc(HObj(TIMEOUT_EXC, {"args": Tup(())})), node)
             v = App("recvd", (n, C(k)), "bytes")
             e.ret = v
@@ -108,15 +111,12 @@ def r2(ctx):
         def body(run):
             ws = mk_websocket(I, run, skip=TRUE)
             fn = I.getattr(run, ws, "recv_frame", None)
-            try:
-                return I.call(run, fn, [], {}, None)
-            except RaiseSig as r:
-                if not run.memo.get("raised") or run.memo.get("retried"):
-                    raise
-                run.memo["retried"] = True
-                if I.exc_class_name(run, r.exc) != TIMEOUT_EXC:
-                    raise
-                return I.call(run, fn, [], {}, None)
+            for attempt in range(max_faults + 1):
+                try:
+                    return I.call(run, fn, [], {}, None)
+                except RaiseSig as r:
+                    if attempt == max_faults or I.exc_class_name(run, r.exc) != TIMEOUT_EXC:
+                        raise
         return ctx.count_paths(I.explore(body))
 
     base = run_with(mk_interp(False))
